@@ -289,6 +289,43 @@ def json_options(ctx):
     ctx.guarded('json', f)
 
 
+def kind_conditions(paths, method, kinds3):
+    """the kind of representer / constructor registered for a class is
+    decided by the class kind with ENUM FIRST: on every path that registers
+    something other than the enum kind the path condition has established
+    that the class is not an enum, and the plain kind is registered only
+    after string-likeness has been refuted as well.  -> (ok, detail)"""
+    enum_k, str_k, plain_k = kinds3
+    bad = []
+    for p in paths:
+        for e in p.effects:
+            if not (e.kind == 'call' and isinstance(e.target, G.Term)
+                    and e.target.op == 'attr'
+                    and e.target.args[1] == method):
+                continue
+            rep = e.detail[0][1]
+            if not (isinstance(rep, G.Term) and rep.op == 'new'):
+                continue
+            kind = G.canon(rep.args[0])[-1]
+            cls_arg = G.canon(rep.args[1]) if len(rep.args) > 1 else None
+            facts = {}
+            for (c, val) in p.assume:
+                cc = G.canon(c)
+                if cc[:3] == ('term', 'call', ('ext', 'issubclass')) and \
+                        cc[3] == cls_arg:
+                    what = 'enum' if cc[4] == ('ext', 'enum.Enum') else (
+                        'strlike' if 'collections.UserString' in str(cc[4])
+                        else str(cc[4]))
+                    facts[what] = val
+            want = {enum_k: {'enum': True},
+                    str_k: {'enum': False, 'strlike': True},
+                    plain_k: {'enum': False, 'strlike': False}}.get(kind)
+            if want is None or any(facts.get(k) is not v
+                                   for k, v in want.items()):
+                bad.append((kind, e.line, facts))
+    return not bad, bad
+
+
 def representer_registration(ctx):
     def f():
         paths = [p for p in ctx.g.run('yatiml/dumper.py::add_to_dumper')
@@ -316,6 +353,13 @@ def representer_registration(ctx):
                'string-likes UserStringRepresenter, others Representer',
                kinds == {'EnumRepresenter', 'UserStringRepresenter',
                          'Representer'}, kinds)
+        okc, det = kind_conditions(paths, 'add_representer', (
+            'EnumRepresenter', 'UserStringRepresenter', 'Representer'))
+        ctx.ob('register::kind-by-class-kind', 'an enum class (also one that '
+               'is string-like, e.g. class C(str, Enum)) gets the '
+               'EnumRepresenter; the string representer is chosen only for '
+               'non-enums, the plain one only for classes that are neither',
+               okc, det)
         top = ctx.g.run_toplevel('yatiml/dumper.py')
         effs = [e for p in top for e in p.effects if e.kind != 'new']
         ok = len(effs) >= 3 and all(
@@ -381,6 +425,12 @@ def constructor_registration(ctx):
                good and kinds == {'EnumConstructor', 'UserStringConstructor',
                                   'Constructor'}, (kinds, [p.effects for p
                                                            in paths][:2]))
+        okc, det = kind_conditions(paths, 'add_constructor', (
+            'EnumConstructor', 'UserStringConstructor', 'Constructor'))
+        ctx.ob('register::kind-by-class-kind', 'an enum class (also a '
+               'string-like one) gets the EnumConstructor; the string '
+               'constructor is chosen only for non-enums, the generic one '
+               'only for classes that are neither', okc, det)
         fac = factory(ctx, 'yatiml/loader.py::load_function')
         okp = True
         for p, inst in fac:
